@@ -440,3 +440,76 @@ def s19c_high_low_mirror(ctx):
 def json_short(x):
     import json
     return json.dumps(x)[:80]
+
+
+def s19d_renko_volume_drained(ctx):
+    """C17: Renko spreads over the bricks it emits exactly the volume accumulated since the previous emission: on every path of next() that
+    emits bricks (output length not the constant 0) the volume accumulator ends as the constant 0 and the per-brick volume is computed from the
+    accumulated value; on a path that emits nothing the accumulator is not reset."""
+    f = ctx.facts('default')
+    m = Model(f)
+    r = RuleResult('S19d', 'Renko::next: the volume accumulator (the float field that receives `+ candle.volume()`) is drained to 0 on every emitting path, '
+                           'feeds the per-brick volume there, and is kept on non-emitting paths')
+    imp = [i for i in m.method_impls if (m.adt_path_of_impl(i) or '').endswith('renko::Renko')]
+    if len(imp) != 1:
+        raise Broken('Renko Method impl not found')
+    b = m.body_inlined(m.impl_fn_path(imp[0], 'next'))
+    if b is None:
+        raise Broken('no body for Renko::next')
+
+    def vol_call(t):
+        return any(isinstance(x, tuple) and x and x[0] == 'call' and x[4].endswith('OHLCV::volume') for x in walk_tree(t))
+    from mir import self_field_of_place
+    acc = set()
+    for bi, si, s in b.stmts():
+        if s['s'] == 'assign':
+            fp = self_field_of_place(s['pl'])
+            if fp and len(fp) == 1 and vol_call(b.tree_of_rvalue(s['rv'])):
+                acc.add(fp[0])
+    if len(acc) != 1:
+        raise Broken('volume accumulator of Renko not identified (%s)' % sorted(acc))
+    F = next(iter(acc))
+    n_emit = n_idle = 0
+    for pf in all_path_facts(b):
+        if not pf.returns or pf.ret is None or pf.ret[0] != 'agg':
+            continue
+        fields = dict(zip(pf.ret[4], pf.ret[3]))
+        ln = fields.get('len')
+        if ln is None:
+            raise Broken('Renko::next does not return a literal with a `len` field')
+        ln_ = ln
+        while isinstance(ln_, tuple) and ln_ and ln_[0] in ('ref', 'deref'):
+            ln_ = ln_[1]
+        idle = ln_[0] == 'const' and ln_[2] == 0
+        stores = [(tree, line) for pl, tree, line in pf.stores if self_field_of_place(pl) == [F]]
+        # `mem::replace(&mut self.volume, 0.0)` / `mem::take(&mut self.volume)` store through the reference they are given
+        for blk, ct, t in pf.calls:
+            if ct[4] in ('std::mem::replace', 'core::mem::replace', 'std::mem::take', 'core::mem::take') and ct[2]:
+                a0 = ct[2][0]
+                while isinstance(a0, tuple) and a0 and a0[0] in ('ref', 'deref'):
+                    a0 = a0[1]
+                if a0[0] == 'field' and a0[2] == F:
+                    newv = ct[2][1] if len(ct[2]) > 1 else ('const', 'f64', 0.0)
+                    stores.append((newv, b.term_line(blk)))
+        key = 'Renko|next|%s' % ('idle' if idle else 'emitting')
+        r.inst(key)
+        if idle:
+            n_idle += 1
+            if any(tree[0] == 'const' for tree, line in stores):
+                r.violate(key + '|accumulator-reset', 'Renko::next resets `%s` on a path that emits no brick: the volume of that candle is lost' % F, b.file, b.line)
+            continue
+        n_emit += 1
+        last = stores[-1][0] if stores else None
+        lt = last
+        while isinstance(lt, tuple) and lt and lt[0] in ('ref', 'deref'):
+            lt = lt[1]
+        if not (lt is not None and lt[0] == 'const' and lt[2] == 0.0):
+            r.violate(key + '|accumulator-not-drained', 'Renko::next emits bricks but leaves `%s` = %s instead of 0: volume already spread over these bricks is emitted again with the next ones'
+                      % (F, tree_str(last)[:60] if last is not None else 'unchanged'), b.file, stores[-1][1] if stores else b.line)
+        bv = [v for k, v in fields.items() if 'vol' in k]
+        if bv and not any(any(isinstance(x, tuple) and x and x[0] == 'field' and x[2] == F for x in walk_tree(v)) or vol_call(v) for v in bv):
+            r.violate(key + '|brick-volume-not-from-accumulator', 'the per-brick volume of the emitted bricks is not computed from `%s`' % F, b.file, b.line)
+    r.floor('emitting paths', 2, n_emit)
+    r.floor('idle paths', 1, n_idle)
+    r.sample({'accumulator': F, 'emitting paths': n_emit, 'idle paths': n_idle})
+    return r
